@@ -64,6 +64,8 @@ def corpus():
             out.append("rand09 %d Z:%x %s %s" % (bits, sh, C.tokU(bits, (1 << bits) - 1), C.tokL(ws)))
         out.append("arbitrary %d %s" % (bits, C.tokY([0xff] * (8 * n + 3))))
         out.append("arbitrary %d %s" % (bits, C.tokY([])))
+        for e in pow2_exponents(rng, bits):
+            out.append("approx_pow2 %d Z:%x" % (bits, f64bits(e)))
     return [x for x in out if x not in SUSPECT]
 
 
@@ -97,9 +99,31 @@ def gen(rng, tier):
                 out.append("proptest %d Z:%x" % (bits, rng.getrandbits(rng.choice([3, 32, 64]))))
                 out.append("quickcheck %d Z:%x Z:%x" % (bits, rng.getrandbits(rng.choice([3, 32, 64])),
                                                         rng.choice([1, 10, 100, 1000])))
+        for e in pow2_exponents(rng, bits):
+            out.append("approx_pow2 %d Z:%x" % (bits, f64bits(e)))
         for which in range(6):
             out.append("thread_random %d Z:%x Z:%x" % (bits, which, 20 if tier == "quick" else 200))
     return [x for x in out if x not in SUSPECT]
+
+
+def f64bits(v):
+    import struct
+    return struct.unpack(">Q", struct.pack(">d", float(v)))[0]
+
+
+def pow2_exponents(rng, bits):
+    """exponents for approx_pow2 around every decision of the code: negative, the 0.58.. rounding
+    threshold, integers and half-integers up to BITS, exactly BITS (the largest exponent that is not
+    rejected up front: the result 2^BITS never fits), just below / above BITS, the 63/64 switch
+    between the rounding path and the shifting path, non-finite values"""
+    out = [-2.0, -1.0, -0.5, 0.0, 0.58, 0.5849625007211562, 0.59, 1.0, 1.6, 10.385, 62.0, 62.99, 63.0, 63.5, 64.0,
+           64.5, float(bits), bits - 1.0, bits - 0.5, bits - 1e-9, bits + 0.5, bits + 1.0, bits - 63.0, bits - 64.0,
+           float("inf"), float("-inf"), float("nan"), 1e300, 5e-324]
+    for _ in range(6):
+        out.append(rng.uniform(0, max(bits, 1)))
+        out.append(float(rng.randrange(0, bits + 2)))
+        out.append(bits - rng.random() * rng.choice([1e-12, 1e-6, 1e-3, 1.0]))
+    return out
 
 
 def prepare(lines):
@@ -107,18 +131,27 @@ def prepare(lines):
     (observed through the same seeded generator at type [u64; LIMBS] / u64)"""
     idx = [i for i, ln in enumerate(lines)
            if ln.split()[0] in ("proptest", "quickcheck") and not any(t.startswith("L:") for t in ln.split()[2:])]
-    if not idx:
+    # approx_pow2: the observed `(fract.exp2() * 2^63) as u64` (libm) is the model's second input
+    idp = [i for i, ln in enumerate(lines) if ln.split()[0] == "approx_pow2" and len(ln.split()) == 3]
+    if not idx and not idp:
         return lines
     q = []
     for i in idx:
         p = lines[i].split()
         q.append(" ".join([p[0] + "_src"] + p[1:]))
+    for i in idp:
+        p = lines[i].split()
+        q.append(" ".join(["approx_pow2_obs"] + p[1:]))
     res = C.run_harness(BIN, "release", q)
     out = list(lines)
-    for i, r in zip(idx, res):
+    for i, r in zip(idx, res[:len(idx)]):
         if r is None or not r.startswith("L:"):
             r = "L:"           # the case will then fail wf / agreement and be reported
         out[i] = lines[i] + " " + r
+    for i, r in zip(idp, res[len(idx):]):
+        if r is None or not r.startswith("Z:"):
+            r = "Z:0"
+        out[i] = lines[i] + " " + r.strip()
     return out
 
 
